@@ -127,6 +127,18 @@ pub const UNIVERSE: &[&str] = &[
     "{\"a\":1,\"b\":2,\"c\":3}",
     "{\"a\":[1,2]}",
     "{\"a\":{}}",
+    // appended later (replay files hold indices, so new entries go to the end): doubles one unit
+    // in the last place apart, alone and nested - equal only to themselves
+    "0.3",
+    "3e-1",
+    "1.1",
+    "1.1000000000000003",
+    "4503599627370496.5",
+    "4503599627370497.5",
+    "[0.3]",
+    "[0.30000000000000004]",
+    "{\"a\":0.3}",
+    "{\"a\":0.30000000000000004}",
 ];
 
 pub fn universe_vals() -> &'static Vec<RVal> {
